@@ -51,7 +51,7 @@ def check(prop, tier):
     if tier == "quick":
         c = cfg(["a", "b"], 3, 2)
     else:
-        c = cfg(["a", "b", "c"], 4, 2)
+        c = cfg(["a", "b", "c"], 3, 2)
     r = tlc.run("SMDef", c, env={"SM_ATTRS": attrs}, workers=1, heap="8g", timeout=7200, tag="smdef")
     tlc.require_clean(r, "SMDef")
     out.add_mc("SMDef (enumerated universe of definitions; merge/override laws)", r)
